@@ -16,6 +16,10 @@ def add_list(rep, prop):
     import contracts.listc as LC
 
     deductive(rep, prop, LC.FUNCS, "contracts.listc")
+    if prop in ("C01", "C02", "C07"):
+        import contracts.tight as TG
+
+        deductive(rep, prop, TG.FUNCS, "contracts.tight", select=(lambda q, ob, rel: True) if prop == "C01" else None)
 
 
 def run(tier, seed):
